@@ -141,8 +141,7 @@ def classify(res):
 def run(ctx):
     cov = ctx.coverage
     t0 = time.time()
-    if not m.regen_tables(ctx):
-        return
+    m.regen_tables(ctx)      # on failure (reported as a broken tie) go on with the tables of the last good run: the oracle below finds the input
     ok, log = ctx.prove(MODULE, ["drv_c04"])
     broken = []
     if not ok:
